@@ -392,4 +392,7 @@ class C13(Prop):
             sim.fail_post("loop-error", f"loop exception handler called: {errs[:2]}")
 
 
+from sim.prop import with_eager  # noqa: E402
+
+C13.tiers = with_eager(C13.tiers, [('share', 40000), ('cancel', 40000)])
 PROPS = {"C13": C13()}
